@@ -1,7 +1,7 @@
 (* C05 — constructor calls type-check eagerly and agree with ONNX strict inference.  Property theorems only.
    ONNX's inference is the variable [infer]: every theorem below holds for EVERY such function. *)
 From Coq Require Import List String Bool Arith ZArith NArith.
-From Spox Require Import NodeProto NodeProtoFacts.
+From Spox Require Import NodeProto NodeProtoFacts NodeProtoKeys.
 Import ListNotations.
 
 (* slots_roundtrip (inputs).  For every signature in which a variadic parameter occurs only in last position (this
@@ -69,6 +69,13 @@ Theorem C05_singleton_roundtrip :
                    nm_of sc v = nm_of sc w -> v = w).
 Proof. exact singleton_roundtrip. Qed.
 Print Assumptions C05_singleton_roundtrip.
+
+(* keys_ok follows from the signature alone: distinct non-empty field names over inputs and outputs, none of which
+   starts with "<variadic field>_" (evaluated for every shipped class on every run) *)
+Theorem C05_keys_ok_from_signature :
+  forall c, call_ok c = true -> sig_keys_ok (c_sig c) = true -> keys_ok c = true.
+Proof. exact keys_ok_from_signature. Qed.
+Print Assumptions C05_keys_ok_from_signature.
 
 (* attrs_forwarded: the emitted attribute list is exactly the set attributes, in declaration order, each under the
    Attr object's name with its value (a subgraph under its field key); unset attributes are absent. *)
